@@ -1,0 +1,20 @@
+//go:build verif
+
+package gomavlib
+
+import (
+	"io"
+	"time"
+)
+
+// VerifSetSerialOpenFunc replaces the function used to open serial ports
+// (verification hook: serial devices cannot be opened in a sandbox).
+func VerifSetSerialOpenFunc(f func(device string, baud int) (io.ReadWriteCloser, error)) {
+	serialOpenFunc = f
+}
+
+// VerifSetReconnectPeriod replaces the delay between connection attempts
+// of client-type endpoints (verification hook).
+func VerifSetReconnectPeriod(d time.Duration) {
+	reconnectPeriod = d
+}
